@@ -671,7 +671,8 @@ func (t *scalarTranslator) run(instrs []string, skip func(string) bool) {
 			t.def(ops[2], fmt.Sprintf("(~~~ %s) &&& %s", t.cur(ops[1]), t.cur(ops[0])), ins)
 		case "ADDQ":
 			a, b := t.cur(ops[1]), t.cur(ops[0])
-			t.carry = fmt.Sprintf("(BitVec.carry 64 %s %s false)", a, b)
+			// carry flag of an unsigned 64-bit addition: the sum wrapped around iff it is below an operand
+			t.carry = fmt.Sprintf("(BitVec.ult (%s + %s) %s)", a, b, a)
 			t.def(ops[1], fmt.Sprintf("%s + %s", a, b), ins)
 		case "SETCS":
 			if t.carry == "" {
